@@ -311,6 +311,11 @@ impl IndexerHandle {
                     if key.len() != prefix.len() + 16 {
                         return None;
                     }
+                } else if key.len() < prefix.len() + 16 {
+                    // Prefix mode: the searched bytes have to lie inside the script part of the
+                    // key. A shorter script followed by the zero bytes of its block number is not
+                    // a script with this prefix.
+                    return None;
                 }
                 let tx_hash = packed::Byte32::from_slice(&value).expect("stored tx hash");
                 let index =
@@ -529,6 +534,9 @@ impl IndexerHandle {
                     if key.len() != prefix.len() + 17 {
                         continue;
                     }
+                } else if key.len() < prefix.len() + 17 {
+                    // Prefix mode: the searched bytes have to lie inside the script part of the key
+                    continue;
                 }
                 let tx_hash: H256 = packed::Byte32::from_slice(&value)
                     .expect("stored tx hash")
@@ -646,6 +654,9 @@ impl IndexerHandle {
                         if key.len() != prefix.len() + 17 {
                             return None;
                         }
+                    } else if key.len() < prefix.len() + 17 {
+                        // Prefix mode: the searched bytes have to lie inside the script part of the key
+                        return None;
                     }
                     let tx_hash = packed::Byte32::from_slice(&value).expect("stored tx hash");
                     let block_number = u64::from_be_bytes(
@@ -788,6 +799,11 @@ impl IndexerHandle {
                     if key.len() != prefix.len() + 16 {
                         return None;
                     }
+                } else if key.len() < prefix.len() + 16 {
+                    // Prefix mode: the searched bytes have to lie inside the script part of the
+                    // key. A shorter script followed by the zero bytes of its block number is not
+                    // a script with this prefix.
+                    return None;
                 }
                 let tx_hash = packed::Byte32::from_slice(value.as_ref()).expect("stored tx hash");
                 let index =
